@@ -38,7 +38,7 @@ def run(pid, tier, seed):
         n = 7 if q else 9
         consts = {"Keys": tla_set(range(1, n + 1)), "Depth": n, "Owning": "TRUE" if kind == "owning" else "FALSE",
                   "Record": "FALSE"}
-        cfg = os.path.join(vlib.cfg_dir(), "RBTreeMC-%s-ex-%s.cfg" % (pid, kind))
+        cfg = os.path.join(vlib.cfg_dir(), "RBTreeMC-%s-ex-%s-%d.cfg" % (pid, kind, os.getpid()))
         vlib.write_cfg(cfg, spec="Spec", constants=consts, invariants=["Valid"])
         r = vlib.tlc("RBTreeMC", cfg, workers=4, timeout=2400, heap="8g")
         if r.violated:
